@@ -15,7 +15,7 @@ from .interp import Path, PyExc, ReturnSig, Infeasible, Oblig
 from .evalx import Interp, Env
 from .repo import Repo
 from .shapes import BCtx
-from . import axioms, models
+from . import axioms, models, slist
 
 I = z3.IntSort()
 R = z3.RealSort()
@@ -197,7 +197,8 @@ class Engine:
         if isinstance(v, SList):
             if id(v) in memo:
                 return memo[id(v)]
-            s = SList(v.arr, v.n, v.label)
+            s = SList(None, v.n, v.label)
+            s.fn = v.fn
             memo[id(v)] = s
             memo.setdefault('_pairs', []).append((v, s))
             return s
@@ -257,8 +258,9 @@ class Engine:
         if isinstance(a, SList) and isinstance(b, SList):
             if memo_old_to_live.get(id(a)) is not b:
                 return [False]
+            fa, fb = a.fn, b.fn
             return [mk(term(a.n) == term(b.n)),
-                    Forall(0, SV(term(a.n)), lambda i: mk(z3.Select(a.arr, i.t) == z3.Select(b.arr, i.t)))]
+                    Forall(0, SV(term(a.n)), lambda i: mk(fa(i.t) == fb(i.t)))]
         if isinstance(a, models.Absent) or isinstance(b, models.Absent):
             if isinstance(a, models.Absent) and isinstance(b, models.Absent):
                 return [mk(a.absent == b.absent)] + [models.s_implies(it, [mk(z3.Not(a.absent)), c], {})
@@ -331,9 +333,18 @@ class Engine:
         env = self.spec_env(it, c, m, vals)
         for nm, ex in c.let.items():
             env.vars[nm] = self.eval_clause(it, ex, env)
+        guard = True
         for nm, ex in c.requires:
-            p.oblige(f'call {c.qual}: requires {nm}', self.eval_clause(it, ex, env), kind='requires', where=ex)
+            rv = self.eval_clause(it, ex, env)
+            if p.spec_mode and not isinstance(rv, Forall):
+                # a specification calling a function under contract: its postcondition is assumed only under its
+                # precondition (no obligation is generated from inside a specification)
+                guard = it.ops.land(guard, it.sbool(rv))
+            else:
+                p.oblige(f'call {c.qual}: requires {nm}', rv, kind='requires', where=ex)
         for exc, cond in c.raises.items():
+            if p.spec_mode:
+                break
             if cond is None:
                 t = fresh('mayraise', z3.BoolSort())
             else:
@@ -374,7 +385,10 @@ class Engine:
         it.old_env = old_env
         try:
             for nm, ex in c.ensures:
-                p.assume(self.eval_clause(it, ex, env))
+                ev = self.eval_clause(it, ex, env)
+                if guard is not True:
+                    ev = models.s_implies(it, [guard, ev], {})
+                p.assume(ev)
         finally:
             it.old_env = saved
         return res
@@ -649,15 +663,17 @@ class Engine:
                 mdl = s.model() if backend.startswith('z3py') else None
             except z3.Z3Exception:
                 mdl = None
-            model = self.extract_model(path, s, mdl)
+            model = self.extract_model(path, s, mdl, ob)
         st = str(r)
         detail = None
         if st != 'unsat':
             detail = {'clause': ob.where, 'goal': str(z3.simplify(g))[:600]}
         return VCResult(name, st, backend, time.time() - t0, pid, ob.kind, model=model, detail=detail, size=size)
 
-    def extract_model(self, path, solver, mdl):
-        """counter-model of the inputs (concrete python values for replay), preferring small dimensions"""
+    def extract_model(self, path, solver, mdl, ob=None):
+        """counter-model of the inputs (concrete python values for replay), preferring small dimensions; the
+        universal preconditions are instantiated at every concrete index below the cap so that the model is a
+        total input satisfying them"""
         if mdl is None:
             return None
         dims = path.dims
@@ -665,6 +681,15 @@ class Engine:
             solver.push()
             for d in dims.values():
                 solver.add(d <= cap)
+            if ob is not None:
+                for u in ob.univ:
+                    if len(u.ks) == 1:
+                        for a in range(cap):
+                            solver.add(z3.substitute(u.tmpl, (u.ks[0], z3.IntVal(a))))
+                    elif len(u.ks) == 2 and cap <= 3:
+                        for a in range(cap):
+                            for b in range(cap):
+                                solver.add(z3.substitute(u.tmpl, (u.ks[0], z3.IntVal(a)), (u.ks[1], z3.IntVal(b))))
             r = solver.check()
             if r == z3.sat:
                 mdl = solver.model()
@@ -713,7 +738,7 @@ class Engine:
                                   self.concretize(x, mdl, memo)] for k, x in v.items()]}
         if isinstance(v, SList):
             n = mdl.eval(term(v.n), model_completion=True).as_long()
-            return [ev(z3.Select(v.arr, k)) for k in range(min(n, 400))]
+            return {'__ilist__': [ev(v.fn(z3.IntVal(k))) for k in range(min(n, 400))], 'enum': getattr(v, 'enum', None)}
         if isinstance(v, Inf):
             return {'__inf__': v.sign}
         if isinstance(v, models.Absent):
